@@ -1,6 +1,6 @@
 (* C09 - pinned statements (densified one-permutation hashing). *)
 From Coq Require Import List ZArith Bool.
-From PMH Require Import Lib.ListArr Model.SuperMinHash Model.DensMinHash Gen.Flags Proofs.DensMinHash.
+From PMH Require Import Lib.ListArr Model.SuperMinHash Model.DensMinHash Gen.FlagsDens Proofs.DensMinHash.
 Import ListNotations.
 Open Scope Z_scope.
 
